@@ -2,7 +2,7 @@
 
 Bounded-exhaustive: direct calls of the real `TrainableDist.apply_delay` over the full product
   interp {linear, linear_real_only} (+ zoh as the comparison partner) x sender rate {8,16,32} Hz x [min,max] {[0,8/64],[1/64,5/64],[0,3/64]} s
-  x window {1,2,3} x payload pytree with every (shape {(),(2,),(2,3)} x dtype {float32,int32,uint8}) leaf
+  x window {1,2,3} x payload pytree with every (shape {(),(2,),(2,3)} x dtype {float32,int32,uint8}) leaf plus float16/bfloat16 leaves of shape (), (2,)
   x timing patterns (regular, leading dummy messages, jittered by +-T/4, dummies + jitter, duplicated send times, late first message)
   x step times on/off the message lattice (inside and outside the regime a compiled graph produces)
   x ALL regions of the delay d: every lattice point at which some window entry can hit a message, +-1 lattice step around it,
@@ -73,7 +73,8 @@ def run(tier, rep):
     rep.section(
         "clauses",
         entry_value_and_neighbour_comparisons=tot["entry_comparisons"], zoh_coincidences=tot["zoh_coincidences"], zoh_entry_comparisons=tot["zoh_entry_comparisons"],
-        continuity_comparisons=tot["continuity_comparisons"], gradient_comparisons=tot["gradient_comparisons"], gradient_elements_compared=tot["gradient_elements_compared"], gradient_elements_skipped_at_kinks=tot["gradient_skipped_at_kinks"],
+        continuity_comparisons=tot["continuity_comparisons"], gradient_comparisons=tot["gradient_comparisons"], gradient_elements_compared=tot["gradient_elements_compared"], gradient_at_bound_comparisons=tot["gradient_at_bound_comparisons"],
+        gradient_at_bound_with_nonzero_slope=tot["gradient_at_bound_nonzero_slope"], gradient_at_bound_skipped_on_message=tot["gradient_at_bound_skipped_on_message"], gradient_elements_skipped_at_kinks=tot["gradient_skipped_at_kinks"],
         dtype_shape_checks=tot["dtype_shape_checks"], vmap_gate_cases=tot["vmap_gate_cases"],
         irregular_spacing_older_entry_mismatches=tot["irregular_spacing_older_entry_mismatches"],
         entries_undecided_short_window_with_dummies=tot["entries_undecided_short_window_with_dummies"],
@@ -101,7 +102,9 @@ def run(tier, rep):
         "when fewer than `window` messages have arrived the statement does not say which slots the window shows: the newest entry and the nominal older entries of all-real buffers are still "
         "decided, older entries of buffers with dummies are counted as undecided",
         "duplicated send times with different payloads make the sender signal itself discontinuous: there any value between the two payloads is accepted at the jump and the continuity/zoh clauses are skipped",
-        "the gradient is taken with jax.jacrev (reverse mode, what jax.grad uses) on the float32 leaves only; points where the reference's one-sided slopes differ are skipped and counted",
+        "the gradient is taken with jax.jacrev (reverse mode, what jax.grad uses) on the float32 leaves only, at two interior points per region and at both bounds alpha in {0,1} "
+        "(there against the one-sided difference taken inside [min,max]); points where the reference's one-sided slopes differ (query time on a message) are skipped and counted",
+        "float16 / bfloat16 leaves (shapes () and (2,)): dtype restoration and values within 2*8*2^-11 resp. 2*8*2^-8 (one rounding of the float32 result by the cast back); not differentiated",
         "jax.vmap of apply_delay equals the per-call jitted function (checked on 24 cases per configuration (quick tier: the window=2 configurations), floats within 2e-4, integer casts within 1)",
     )
 
